@@ -760,7 +760,7 @@ PROPS["C20"] = dict(
 )
 
 PROPS["C16"] = dict(
-    lean_targets=["SJ.Props.C16", "SJ.Props.Typed", "SJ.Audit.C16"],
+    lean_targets=["SJ.Props.C16", "SJ.Props.C16Float", "SJ.Props.Typed", "SJ.Audit.C16"],
     configs=dict(quick=["d", "fr"], thorough=["d", "fr", "po", "ap"]),
     gen_keys=["fromvalue."],
     rule="(schema, value) pairs for the universal DeserializeSeed of harness/src/schema.rs, each run through from_value (Value by value), "
@@ -808,18 +808,24 @@ PROPS["C16"] = dict(
     partial=["c16_agree_partial / c16_text_agrees_partial: the owned/borrowed leg is proved in full strength over the whole universe and "
              "every configuration (c16_owned_borrowed). The text leg — Model.Typed.deTypedTop (transcription of de.rs's typed entry "
              "points + end()) on the serializer model's to_string(v) equals fromValue, matching and mismatching values alike — is "
-             "proved (c16_text_agrees_partial) for every schema without float targets: bool, twelve integer widths, char, String, "
+             "proved (c16_text_agrees_partial) for every schema of the universe without f32 targets and zero-length tuple variants "
+             "(both outside the claim): bool, twelve integer widths, f64, char, String, "
              "byte buffers, unit / unit struct, Option, newtype, Vec, fixed tuples, maps with every key kind (string, twelve integer "
              "widths, bool, char, unit-variant enums; arbitrary key strings), structs with and without deny_unknown_fields from "
              "arrays and objects, enums with unit / newtype / non-empty tuple / struct variants, IgnoredAny, Value at any nesting "
-             "depth — over float-free non-arbitrary_precision values of the build (shapeOK) within the depth budget and outside the "
-             "statement's exclusions (struct variant written as an array: hasArrayPayload; zero-length tuple variant: part of the "
-             "fragment). Missing: f64 targets and float values (the link between the typed number scanner and ryu's text under "
-             "FloatsRoundTrip; a float under a 128-bit integer target is consumed as its integer prefix and rejected only by the "
-             "caller, so the per-target invariant fails there), f32 (outside the claim), arbitrary_precision. For these the "
+             "depth — over the non-arbitrary_precision values of the build (shapeOK, floats finite) whose floats the printer / parser "
+             "pair returns (the named hypothesis FloatsRoundTrip, as the statement's 'float_roundtrip or short float literals'; "
+             "discharged from RyuShortest under float_roundtrip: c16_text_agrees_fr; vacuous without floats: c16_text_agrees_nofloat), "
+             "within the depth budget and outside the statement's exclusion (struct variant written as an array: hasArrayPayload). "
+             "Missing: a float value in a schema that has a 128-bit integer target (scan_integer128 consumes the integer prefix of "
+             "1.5 and the rejection comes from the caller, so the per-target invariant of the proof fails there although all three "
+             "paths reject: ERR|ERR|ERR on every generated case), and arbitrary_precision. For these the "
              "three-way agreement is carried by the correspondence run: the executable specification compares the three REAL "
              "outcomes on every generated pair and the driver's third model field is computed by the typed model from the text "
-             "(0 disagreements)",
+             "(0 disagreements). Observation outside the claim (f32 targets are excluded by the statement): under float_roundtrip "
+             "from_value::<f32>(1.0000000596046448) = 0x3f800000 (f64 -> f32 cast, ties to even) while "
+             "from_str::<f32>(\"1.0000000596046448\") = 0x3f800001 (parsed straight to f32) — c16 d g d3ff0000010000000 in the fr "
+             "build; in the default build the three agree",
              "the wire codecs of Schema / TVal have no round-trip lemma (decode (enc x) = x); they are exercised on every case line"],
     technique="Lean 4 theorem by mutual structural induction over a nested typed universe: the two transcriptions of src/value/de.rs (owned "
               "Deserializer for Value, borrowed Deserializer for &Value, each with its seq/map/enum/variant access types, sharing Number's "
@@ -840,7 +846,9 @@ PROPS["C16"] = dict(
                "WTF-8 strings, option, seq / tuple with end_seq, maps with MapKey for every key kind, structs, enums, ignored, any, "
                "recursion budget, error positions for slice and reader); typed_no_panic / typed_fuel_suffices / typed_fuel_irrelevant "
                "(the model is total and its fuel is sufficient: the result is never `fuel` once fuel > schema size), typed_progress, and "
-               "c16_text_agrees_partial (text leg = from_value on every schema without float targets, over float-free values: strings, "
+               "c16_text_agrees_partial (text leg = from_value on every schema without f32 targets, f64 targets and float values "
+               "included under the float hypothesis FloatsRoundTrip — c16_text_agrees_fr: from RyuShortest under float_roundtrip —, "
+               "except a float in a schema with a 128-bit integer target: strings, "
                "maps with every key kind, structs, enums, IgnoredAny and nested Value included). The typed model is compared with the "
                "crate on every C16 pair's text and on ~200k (schema, text) cases per configuration incl. mutated texts, with message, "
                "category, line and column (0 disagreements).",
@@ -952,17 +960,24 @@ PROPS["C04"] = dict(
                  "code outside /repo; Model.TypedSer.progOf transcribes the calls they make (serialize_struct / serialize_field / "
                  "serialize_*_variant / collect_seq / collect_map ...), and the harness op rtm (harness/src/c04m.rs: Dyn) makes exactly "
                  "these calls against the real serializer for generated (schema, value) pairs"],
-    partial=["typed clause: c04_typed_partial — for every schema of the fragment agreeFragT (bool, twelve integer widths incl. every "
-             "128-bit value, char, String, byte buffers, unit / unit struct, Option, newtype, Vec, tuples, maps with every key kind, "
-             "structs, enums with unit / newtype / non-empty tuple / struct variants) and every well-formed typed value (wfTV: inhabits "
-             "the type, strings valid UTF-8, chars scalar, field / variant / key names distinct valid UTF-8, no Some(x) with x "
-             "serialising as null) whose text nests <= 127 deep: serCompact of the serializer program Model.TypedSer.progOf s v (the "
-             "calls serde's / serde_derive's Serialize impls make) succeeds and deTypedTop s of that text returns v, from every source. "
-             "Obtained by composition: C03 (text = render of the program's image), image_progOf (= image of the Value valueOf s v), "
-             "fromValue_valueOf (from_value(to_value(v)) = v) and the text leg of C16 (agree_gen). Missing: the pretty formatter (the "
-             "text leg is proved for the compact layout only), f64 / f32 fields (float step through the typed number scanner), Value "
-             "members (wfTV does not carry WFValue), IgnoredAny (no Serialize impl), zero-length tuple variants (from_value refuses "
-             "{\"V\":[]}, so the composition breaks although the text round trip holds), arbitrary_precision. All of these are "
+    partial=["typed clause: c04_typed_partial (compact) and c04_typed_pretty_partial (pretty, every whitespace indent) — for every "
+             "schema of the fragment agreeFragT (bool, twelve integer widths incl. every 128-bit value, f64, char, String, byte buffers, "
+             "unit / unit struct, Option, newtype, Vec, tuples, maps with every key kind, structs, enums with unit / newtype / non-empty "
+             "tuple / struct variants) and every well-formed typed value (wfTV: inhabits the type, floats finite, strings valid UTF-8, "
+             "chars scalar, field / variant / key names distinct valid UTF-8, no Some(x) with x serialising as null) whose text nests "
+             "<= 127 deep and whose f64 members the printer / parser pair returns (the named hypothesis FloatsRoundTrip on the members): "
+             "serCompact / serPretty of the serializer program Model.TypedSer.progOf s v (the calls serde's / serde_derive's Serialize "
+             "impls make) succeeds and deTypedTop s of that text returns v, from every source. Under float_roundtrip the float "
+             "hypothesis is discharged from RyuShortest alone (c04_typed_fr, c04_typed_pretty_fr: all finite f64 members); without f64 "
+             "members it is vacuous (c04_typed_nofloat). Obtained by composition: C03 (text = render / layout of the program's image), "
+             "image_progOf (= image of the Value valueOf s v), fromValue_valueOf (from_value(to_value(v)) = v) and the text leg of C16 "
+             "on a LAYOUT (agree_gen / agree_gen_L: the typed reader skips whitespace wherever the pretty printer puts it). f32: only "
+             "the leaf (c04_typed_f32_leaf under float_roundtrip + RyuShortest: to_string(x: f32) -> from_str::<f32> = x bit for bit, "
+             "through the single_precision path linked to lexical by c07_typed_f32_link; c04_typed_f32_leaf_default under the named "
+             "hypothesis F32RoundTrip). Missing: f32 MEMBERS of containers (to_string prints an f32 with ryu's binary32 digits, which "
+             "is not the text of the widened Value, so the detour through from_value(to_value(x)) does not apply), Value members (wfTV "
+             "does not carry WFValue), IgnoredAny (no Serialize impl), zero-length tuple variants (from_value refuses {\"V\":[]}, so the "
+             "composition breaks although the text round trip holds), arbitrary_precision. All of these are "
              "covered by the correspondence op rtm (both formatters, floats, f32, Value members, int keys: model text and model "
              "decoded value computed, 0 disagreements) and by rtt (zoo of real derived types, model = echo)",
              "floats: c04_value takes the hypothesis FloatsRoundTrip cfg ext v (for every Float in v, parsing the text ryu prints gives that "
@@ -976,8 +991,8 @@ PROPS["C04"] = dict(
               "JSON whitespace, so a harmless change of the pretty layout alarms C03 but not C04) with C01 "
               "completeness (derivable text meeting the side conditions is accepted with value canonM) and a structural induction showing "
               "canonM(cstOf(image v)) = v for every well-formed Value; differential run of the composed models against the crate's own "
-              "round trips; typed data: Lean theorem c04_typed_partial by composition (C03 on the program progOf, image = image of valueOf, "
-              "from_value(to_value) = id, text leg of C16), differential round trips of a zoo of derived types (rtt) and of generated "
+              "round trips; typed data: Lean theorems c04_typed_partial / c04_typed_pretty_partial by composition (C03 on the program progOf, "
+              "image = image of valueOf, from_value(to_value) = id, text leg of C16 generalised to layouts), differential round trips of a zoo of derived types (rtt) and of generated "
               "(schema, value) pairs with computed model text and value (rtm)",
     level_text="Machine-checked: c04_value / c04_value_pretty (for every build, source, well-formed Value v and whitespace indent: the model "
                "serializer's output parses back to exactly v, given that the float printer/parser pair returns the floats of v), "
@@ -989,14 +1004,16 @@ PROPS["C04"] = dict(
                "default build and from roundNE64's range for float_roundtrip), hence c04_reparse / c04_reparse_ap (serialise-then-parse "
                "of any parsed value gives it back, across sources and formatters). The crate's to_string/to_vec/to_writer(+pretty) "
                "followed by from_str/from_slice/from_reader is run on generated Values and compared both with the original and with the "
-               "Lean round trip. Typed clause: c04_typed_partial (machine-checked, compact formatter, float-free fragment, every "
-               "source); typed data (derived types covering the serde data model) is round-tripped through the crate (rtt), and "
+               "Lean round trip. Typed clause: c04_typed_partial / c04_typed_pretty_partial (machine-checked, both formatters, every "
+               "source, fragment with f64 members under the float hypothesis; c04_typed_fr / c04_typed_pretty_fr under float_roundtrip "
+               "from RyuShortest alone; c04_typed_f32_leaf for a bare f32); typed data (derived types covering the serde data model) is round-tripped through the crate (rtt), and "
                "generated (schema, value) pairs are serialised and read back by the crate and by the models, compared byte for byte "
                "and value for value (rtm).",
     level_note="Trusted: Lean kernel + 3 standard axioms; extract.py; harness/driver; the serializer and parser models (tied by C03 and "
                "C01/C02 correspondence); itoa/ryu as parameters; serde's and serde_derive's Serialize impls as transcribed by progOf. "
-               "Partial: typed clause proved for the compact formatter on the float-free fragment, the rest by correspondence; float "
-               "step is a named hypothesis (C07/C08).",
+               "Partial: typed clause proved for both formatters on the fragment without f32 / Value members and zero-length tuple "
+               "variants, the rest by correspondence; float step is a named hypothesis in the default build (C08), discharged under "
+               "float_roundtrip (C07 + RyuShortest).",
 )
 
 PROPS["C07"] = dict(
@@ -1053,8 +1070,9 @@ PROPS["C07"] = dict(
         "the 'every finite f32 survives in every configuration' clause (default build: f64 conversion then `as f32`) is a finite "
         "enumeration in the harness (f32all, 2^32 patterns in fr, fr+ap and default builds), not a theorem",
         "c07_all_sources links the Value target of the byte machine (all three sources, nested values) to deFloatRoundtrip; the typed "
-        "f64 target uses the same Model.Num.convertRoundtrip (Typed.parserNumber), the typed f32 target (Typed.f32Roundtrip) is not "
-        "linked to deFloatRoundtrip true by a theorem (carried by the correspondence runs of C07 and of the typed checks)",
+        "targets are linked by c07_typed_f32_link (Typed.deNumber = scan, then deFloatRoundtrip single_precision under float_roundtrip "
+        "resp. convertDefault, then the visitor; Typed.f32Roundtrip = deFloatRoundtrip true + serde's f32 visitor) and "
+        "c07_typed_nearest (IsNearestEven64/32 for deserialize_f64 / deserialize_f32) for inputs shorter than 2^29-20 bytes",
         "the 32-bit-limb configuration of lexical/math.rs is not modelled (c07_limbs_* are about 64-bit limbs, every 64-bit target)",
     ],
     technique="Lean 4: extracted lexical tables proved against exact powers by kernel evaluation; transcription of lexical and its de.rs "
